@@ -56,6 +56,16 @@ def generate(tier, seed, ctx):
         la = 10.0 ** rng.uniform(-12, 12)
         lb = la * 10.0 ** rng.uniform(-8, 8) if k % 7 else la
         R.append("c19.logspace %s %s %d" % (hx(la), hx(lb), steps))
+    # end points that are close but distinct (relative gap 1e-16 .. 1e-9): a full grid must still come back
+    for k in range(60 if thorough else 24):
+        a = rng.choice([1.0, -1.0, 3.5, 1e-3, 1e6, -7.25e4]) * (1 + rng.random())
+        gap = 10.0 ** rng.uniform(-15.5, -9)
+        b = a * (1 + gap) if k % 2 else a * (1 - gap)
+        steps = rng.choice([2, 3, 5, 17])
+        if b != a:
+            R.append("c19.linspace %s %s %d" % (hx(a), hx(b), steps))
+            if a > 0:
+                R.append("c19.logspace %s %s %d" % (hx(a), hx(b), steps))
     # --- closest location -----------------------------------------------------------------------
     alpha = [0.0, 1.0, 2.0, 3.0, 4.0]
     maxlen = 6 if thorough else 4
